@@ -9,8 +9,8 @@ CONSTANTS
                        \* "equal2": 00000.chunk and 00000.secondary have the same content
     ServedU,           \* "honest" | "atomic" | "increasing"
     DirU,              \* "honest" | "atomic" | "all" | "fromServed"
-    AllDirOptions,     \* DirU = "all": per file a subset of {-1 absent, 0 its own content, 1 another
-                       \* certified content, 2 a foreign content}
+    AllDirOptions,     \* DirU = "all": per file a subset of {0 absent, 1 its own content, 2 another
+                       \* certified content, 3 a foreign content}
     ExcuseMisplaced,   \* KNOWN_FINDINGS C10-content-not-bound-to-name
     ExcuseDecoy        \* KNOWN_FINDINGS C10-nested-immutable-dir
 
@@ -63,7 +63,7 @@ AtomicDir ==
     \cup {[HonestDir EXCEPT !.decoy = d, !.imm[n] = Foreign] : d \in {"first", "after"}, n \in DOMAIN Cert}
 
 (* per file: absent / its own content / another certified content / a foreign content *)
-Absent == -1
+Absent == 0
 Other(n) == LET i == CHOOSE i \in DOMAIN CertSeq : CertSeq[i] = n
             IN  Cert[CertSeq[(i % Len(CertSeq)) + 1]]
 AllDir ==
@@ -71,7 +71,7 @@ AllDir ==
         f \in [Trios(0, N) -> AllDirOptions]}
 ResolveAll(d) ==
     [d EXCEPT !.imm = [n \in DOMAIN d.imm |->
-                          CASE d.imm[n] = 0 -> Cert[n] [] d.imm[n] = 1 -> Other(n) [] OTHER -> Foreign]]
+                          CASE d.imm[n] = 1 -> Cert[n] [] d.imm[n] = 2 -> Other(n) [] OTHER -> Foreign]]
 
 (* the directory a mirror would pair with a forged list: every file of the trios carries  *)
 (* the content the served list assigns to its name (its certified content if unnamed)      *)
